@@ -197,7 +197,11 @@ def run_conc(job, model=None, kind=None):
 
         tb = traceback.extract_tb(ex.__traceback__)
         where = next((f"{os.path.basename(f.filename)}:{f.lineno}" for f in reversed(tb) if _in_repo(f.filename)), "harness")
-        env.failures.append((f"{pid} the operation raised {type(ex).__name__} ({where}: {str(ex)[:80]})", None))
+        if where == "harness":
+            # the harness failed, not the library (as in the symbolic run): no verdict for this scenario, never a finding
+            env.harness_gap = f"{type(ex).__name__}: {str(ex)[:120]}"
+        else:
+            env.failures.append((f"{pid} the operation raised {type(ex).__name__} ({where}: {str(ex)[:80]})", None))
     return env
 
 
